@@ -1,600 +1,2 @@
-(** C10 — the epoch invariant [InvE] holds initially and is preserved by every transition. *)
-From Coq Require Import ZArith List Bool Arith Lia.
-From Texel Require Import Workers.Workers Workers.WorkersLemmas Workers.WorkersInv.
-Import ListNotations.
-
-Ltac eqb_cases :=
-  repeat match goal with
-  | |- context [Nat.eqb ?a ?b] => destruct (Nat.eqb_spec a b); try subst; try congruence
-  | H : context [Nat.eqb ?a ?b] |- _ => destruct (Nat.eqb_spec a b); try subst; try congruence
-  end.
-
-Ltac crunch := ssimpl; unfold upd in *; eqb_cases; ssimpl.
-
-Ltac phase_facts I :=
-  let ph := fresh "ph" in let E1 := fresh "Eph" in let E2 := fresh "Eeq" in
-  destruct (e_phase _ _ _ I) as (ph & E1 & E2);
-  match goal with Hpc : pc (th _ 0) = _ |- _ => rewrite Hpc in E1 end; simpl in E1;
-  try discriminate; injection E1 as <-; simpl in E2.
-Ltac bar_facts :=
-  match goal with Hb : (wc _ =? 0)%Z && negb (self _) = true |- _ =>
-    let Hw := fresh "Hw" in let Hs := fresh "Hs" in
-    apply andb_prop in Hb; destruct Hb as [Hw Hs]; apply Z.eqb_eq in Hw; apply negb_true_iff in Hs end.
-
-
-Section P.
-Variable N : nat.
-Variable parent : tid -> option tid.
-Hypothesis Htree : tree_ok N parent.
-Notation InvE := (InvE N parent).
-Notation lstep := (lstep N parent).
-Notation children := (children N parent).
-Notation helper := (helper N).
-Notation npending := (npending N parent).
-
-(** ---- derived facts ---- *)
-Lemma helper_le : forall c, helper c -> c <= N.
-Proof. unfold helper; lia. Qed.
-Lemma helper_S : forall t, S t <= N -> helper (S t).
-Proof. unfold helper; lia. Qed.
-Lemma helper_leb : forall t, Nat.leb (S t) N = true -> helper (S t).
-Proof. intros t H; apply Nat.leb_le in H; unfold helper; lia. Qed.
-
-Lemma inv_se0 : forall s, InvE s -> se (th s 0) <= S (ae (th s 0)) /\ ae (th s 0) <= se (th s 0) /\
-                                     sid s <= S (ae (th s 0)) /\ ae (th s 0) <= sid s.
-Proof.
-  intros s I. destruct (e_phase _ _ _ I) as (ph & _ & E). destruct ph; simpl in E; lia.
-Qed.
-
-Lemma inv_child_le : forall s c p, InvE s -> helper c -> parent c = Some p ->
-  se (th s c) <= se (th s p).
-Proof. intros s c p I Hc Hp. pose proof (e_s1 _ _ _ I c p Hc Hp). lia. Qed.
-
-Lemma parent_le : forall c p, helper c -> parent c = Some p -> p <= N /\ p < c.
-Proof.
-  intros c p Hc Hp. destruct (Htree c Hc) as (p' & E & L). rewrite Hp in E; injection E as <-.
-  unfold helper in Hc; lia.
-Qed.
-
-Lemma child_settled : forall s p c, InvE s -> p <= N -> wc (th s p) = 0%Z ->
-  helper c -> parent c = Some p ->
-  ae (th s c) = se (th s p) /\ se (th s c) = se (th s p) /\ acks c (qu s p) = 0.
-Proof.
-  intros s p c I Hp Hwc Hc Hpar.
-  pose proof (e_w1 _ _ _ I p Hp) as W1. rewrite Hwc in W1.
-  assert (Z0 : npending s p = 0) by lia.
-  unfold WorkersInv.npending in Z0.
-  pose proof (count_zero _ _ Z0 c) as Hz.
-  assert (Hin : In c (children p)) by (apply in_children; auto).
-  specialize (Hz Hin). unfold pendingb in Hz. apply Nat.ltb_ge in Hz.
-  destruct (e_g2 _ _ _ I c Hc) as (_ & G2 & _).
-  pose proof (inv_child_le s c p I Hc Hpar). lia.
-Qed.
-
-Lemma barrier_all : forall s, InvE s -> wc (th s 0) = 0%Z ->
-  forall n c, c <= n -> helper c -> ae (th s c) = se (th s 0) /\ se (th s c) = se (th s 0).
-Proof.
-  intros s I Hwc. induction n as [|n IH]; intros c Hcn Hc.
-  - unfold helper in Hc; lia.
-  - destruct (Htree c Hc) as (p & Hp & Lt).
-    destruct p as [|p'].
-    + destruct (child_settled s 0 c I (Nat.le_0_l _) Hwc Hc Hp) as (A & B & _). auto.
-    + assert (Hph : helper (S p')) by (unfold helper in *; lia).
-      destruct (IH (S p') ltac:(lia) Hph) as (A & B).
-      destruct (e_a1 _ _ _ I (S p') Hph ltac:(lia)) as (_ & W & _).
-      destruct (child_settled s (S p') c I (helper_le _ Hph) W Hc Hp) as (A' & B' & _). lia.
-Qed.
-
-Lemma barrier_noacks : forall s, InvE s -> wc (th s 0) = 0%Z ->
-  forall c p, helper c -> parent c = Some p -> acks c (qu s p) = 0.
-Proof.
-  intros s I Hwc c p Hc Hp.
-  destruct (parent_le c p Hc Hp) as (HpN & _).
-  destruct p as [|p'].
-  - now destruct (child_settled s 0 c I HpN Hwc Hc Hp) as (_ & _ & A).
-  - assert (Hph : helper (S p')) by (unfold helper in *; lia).
-    destruct (barrier_all s I Hwc (S p') (S p') (le_n _) Hph) as (A & B).
-    destruct (e_a1 _ _ _ I (S p') Hph ltac:(lia)) as (_ & W & _).
-    now destruct (child_settled s (S p') c I HpN W Hc Hp) as (_ & _ & A').
-Qed.
-
-(** in a phase with se0 = ae0 every helper is at the same epoch *)
-Lemma quiet_all : forall s, InvE s -> se (th s 0) = ae (th s 0) ->
-  forall c, helper c -> ae (th s c) = se (th s 0) /\ se (th s c) = se (th s 0).
-Proof.
-  intros s I E c Hc.
-  destruct (e_g1 _ _ _ I c (helper_le _ Hc)). destruct (e_g2 _ _ _ I c Hc) as (? & ? & ?). lia.
-Qed.
-
-Lemma stop_head_lag : forall s c p r, InvE s -> helper c -> parent c = Some p -> qu s c = CStop :: r ->
-  se (th s c) = ae (th s 0) /\ se (th s p) = S (ae (th s 0)) /\ se (th s 0) = S (ae (th s 0)) /\
-  stops r = 0 /\ owes (pc (th s p)) c = false.
-Proof.
-  intros s c p r I Hc Hp Hq.
-  pose proof (e_s1 _ _ _ I c p Hc Hp) as S1. rewrite Hq, stops_cons in S1. simpl in S1.
-  destruct (parent_le c p Hc Hp) as (HpN & _).
-  destruct (e_g1 _ _ _ I p HpN). destruct (e_g1 _ _ _ I c (helper_le _ Hc)).
-  destruct (inv_se0 s I) as (? & ? & ? & ?).
-  destruct (owes (pc (th s p)) c); simpl in S1; repeat split; try lia; auto.
-Qed.
-
-Lemma step_g1 : forall s lb s', InvE s -> lstep s lb = Some s' ->
-  forall t, t <= N -> ae (th s' 0) <= se (th s' t) /\ se (th s' t) <= se (th s' 0).
-Proof.
-  intros s lb s' I H t Ht.
-  pose proof (e_g1 _ _ _ I t Ht) as G1.
-  pose proof (e_g1 _ _ _ I) as G1a.
-  step_inv_fine H; crunch; try lia.
-  all: try match goal with
-    | Hq : qu ?s0 (S ?c) = CStop :: _, Hp : parent (S ?c) = Some ?p, Hl : Nat.leb (S ?c) N = true |- _ =>
-        destruct (stop_head_lag s0 (S c) p _ I (helper_leb _ Hl) Hp Hq) as (? & ? & ? & ? & ?); lia
-    end.
-  all: phase_facts I.
-  all: bar_facts.
-  - lia.
-  - assert (helper t) by (unfold WorkersInv.helper; lia).
-    destruct (barrier_all s I Hw t t (le_n _) H). lia.
-Qed.
-
-Ltac phase_facts' I :=
-  let ph := fresh "ph" in let E1 := fresh "Eph" in let E2 := fresh "Eeq" in
-  destruct (e_phase _ _ _ I) as (ph & E1 & E2);
-  match goal with Hpc : pc (th _ 0) = _ |- _ => rewrite Hpc in E1 end; simpl in E1;
-  repeat match type of E1 with context [match ?x with _ => _ end] => destruct x; try discriminate end;
-  try discriminate; injection E1 as <-; simpl in E2.
-
-Lemma step_phase : forall s lb s', InvE s -> lstep s lb = Some s' ->
-  exists ph, mphase (pc (th s' 0)) = Some ph /\
-             phase_eqs ph (sid s') (se (th s' 0)) (ae (th s' 0)) (nbest s').
-Proof.
-  intros s lb s' I H.
-  step_inv_fine H; crunch; try exact (e_phase _ _ _ I).
-  all: phase_facts' I.
-  all: try (eexists; split; [reflexivity | simpl; lia]).
-Qed.
-
-Ltac stop_facts I :=
-  match goal with
-  | Hq : qu ?s0 (S ?c) = CStop :: _, Hp : parent (S ?c) = Some ?p, Hl : Nat.leb (S ?c) N = true |- _ =>
-      destruct (stop_head_lag s0 (S c) p _ I (helper_leb _ Hl) Hp Hq) as (? & ? & ? & ? & ?)
-  end.
-Ltac sendack_facts I :=
-  match goal with
-  | Hpc : pc (th ?s0 (S ?t)) = PSend (CStopAck _) _ , Hl : Nat.leb (S ?t) N = true |- _ =>
-      let X := fresh in pose proof (e_a2 _ _ _ I (S t) (helper_leb _ Hl)) as X; rewrite Hpc in X;
-      specialize (X eq_refl); destruct X as (? & ? & ?)
-  | Hpc : pc (th ?s0 (S ?t)) = PSendW _ , Hl : Nat.leb (S ?t) N = true |- _ =>
-      let X := fresh in pose proof (e_a2 _ _ _ I (S t) (helper_leb _ Hl)) as X; rewrite Hpc in X;
-      specialize (X eq_refl); destruct X as (? & ? & ?)
-  end.
-
-Lemma step_g2 : forall s lb s', InvE s -> lstep s lb = Some s' ->
-  forall c, helper c ->
-    ae (th s' 0) <= ae (th s' c) /\ ae (th s' c) <= se (th s' c) /\ se (th s' c) <= S (ae (th s' c)).
-Proof.
-  intros s lb s' I H c Hc.
-  pose proof (e_g2 _ _ _ I c Hc) as G2.
-  assert (Hc0 : c <> 0) by (unfold WorkersInv.helper in Hc; lia).
-  step_inv_fine H; crunch; try lia.
-  all: try (stop_facts I; lia).
-  all: try (sendack_facts I; lia).
-  - phase_facts' I. bar_facts.
-    destruct (barrier_all s I Hw c c (le_n _) Hc). lia.
-Qed.
-Ltac use_eqs :=
-  repeat match goal with
-  | Hpc : pc (th _ _) = _ |- _ => rewrite Hpc in *
-  | Hq : qu _ _ = _ |- _ => rewrite Hq in *
-  end.
-
-Lemma fwd_push_facts : forall s t w k rest x, InvE s -> t <= N ->
-  pc (th s t) = PFwd w k rest -> mem_tid x rest = true ->
-  helper x /\ parent x = Some t /\ x <> t /\
-  (fwd_purge w = true -> stops (qu s x) = 0) /\
-  (w = FStop -> se (th s t) = S (se (th s x))) /\
-  (fwd_startish w -> se (th s x) = se (th s t) /\ S (se (th s t)) = sid s /\ stops (qu s x) = 0).
-Proof.
-  intros s t w k rest x I Ht Hpc Hm.
-  destruct (e_fwd _ _ _ I t w k rest Ht Hpc) as (_ & _ & Hin).
-  apply mem_tid_In in Hm. specialize (Hin x Hm). apply in_children in Hin. destruct Hin as (Hx & Hp).
-  destruct (parent_le x t Hx Hp) as (_ & Hlt).
-  pose proof (e_s1 _ _ _ I x t Hx Hp) as S1. rewrite Hpc in S1.
-  destruct (e_g1 _ _ _ I t Ht) as (G1a & G1b). destruct (e_g1 _ _ _ I x (helper_le _ Hx)) as (G1c & G1d).
-  destruct (inv_se0 s I) as (? & ? & ? & ?).
-  assert (Hst : fwd_startish w -> se (th s x) = se (th s t) /\ S (se (th s t)) = sid s /\ stops (qu s x) = 0).
-  { intros Hw. pose proof (e_j3 _ _ _ I t w k rest Ht Hpc Hw) as J3.
-    assert (owes (PFwd w k rest) x = false) as Ho by (destruct Hw as [->|(j & ->)]; reflexivity).
-    rewrite Ho in S1. simpl in S1. lia. }
-  assert (Hsp : w = FStop -> se (th s t) = S (se (th s x)) /\ stops (qu s x) = 0).
-  { intros ->. simpl in S1. apply mem_tid_In in Hm. rewrite Hm in S1. simpl in S1. lia. }
-  repeat split; auto; try lia.
-  - intros Hpg. destruct w; try discriminate.
-    + apply Hst. right; eauto.
-    + now apply Hsp.
-  - intros ->. now apply Hsp.
-  - apply Hst; auto.
-  - apply Hst; auto.
-  - apply Hst; auto.
-Qed.
-
-Ltac spec_fwd H :=
-  first [ specialize (H eq_refl)
-        | specialize (H (or_introl eq_refl))
-        | specialize (H (or_intror (ex_intro _ _ eq_refl)))
-        | clear H ].
-Ltac fwd_facts I :=
-  match goal with
-  | Hpc : pc (th ?s0 0) = PFwd ?w ?k ?rest, Hm : mem_tid ?x ?rest = true |- _ =>
-      let A := fresh "Fh" in let B := fresh "Fp" in let C := fresh "Fne" in
-      let D := fresh "Fpg" in let E := fresh "Fst" in let F := fresh "Fss" in
-      destruct (fwd_push_facts s0 0 w k rest x I (Nat.le_0_l _) Hpc Hm) as (A & B & C & D & E & F);
-      spec_fwd D; spec_fwd E; spec_fwd F
-  | Hpc : pc (th ?s0 (S ?t)) = PFwd ?w ?k ?rest, Hm : mem_tid ?x ?rest = true,
-    Hl : Nat.leb (S ?t) N = true |- _ =>
-      let A := fresh "Fh" in let B := fresh "Fp" in let C := fresh "Fne" in
-      let D := fresh "Fpg" in let E := fresh "Fst" in let F := fresh "Fss" in
-      destruct (fwd_push_facts s0 (S t) w k rest x I (proj1 (Nat.leb_le _ _) Hl) Hpc Hm)
-        as (A & B & C & D & E & F);
-      spec_fwd D; spec_fwd E; spec_fwd F
-  end.
-Ltac pcs_facts I :=
-  match goal with
-  | Hpc : pc (th ?s0 (S ?t)) = PSend _ _, Hl : Nat.leb (S ?t) N = true |- _ =>
-      let X := fresh "Hpcs" in
-      pose proof (e_pcs _ _ _ I (S t) (proj1 (Nat.leb_le _ _) Hl)) as X; rewrite Hpc in X; simpl in X;
-      try contradiction; try subst
-  | Hpc : pc (th ?s0 (S ?t)) = PSendW _, Hl : Nat.leb (S ?t) N = true |- _ =>
-      let X := fresh "Hpcs" in
-      pose proof (e_pcs _ _ _ I (S t) (proj1 (Nat.leb_le _ _) Hl)) as X; rewrite Hpc in X; simpl in X;
-      try discriminate; try (injection X as ->)
-  end.
-Ltac fwd_mem :=
-  repeat match goal with
-  | E : remove_tid ?x ?rest = [], Hne : ?c <> ?x, S1 : context [mem_tid ?c ?rest] |- _ =>
-      rewrite (remove_nil_mem c x rest E Hne) in S1
-  | E : remove_tid ?x ?rest = ?a :: ?l, Hne : ?c <> ?x |- context [mem_tid ?c (?a :: ?l)] =>
-      rewrite <- E, (mem_remove_other c x rest Hne)
-  | E : remove_tid ?x ?rest = ?a :: ?l |- context [mem_tid ?x (?a :: ?l)] =>
-      rewrite <- E, (mem_remove_same x rest)
-  end.
-Lemma step_s1 : forall s lb s', InvE s -> lstep s lb = Some s' ->
-  forall c p, helper c -> parent c = Some p ->
-    se (th s' p) = se (th s' c) + stops (qu s' c) + b2n (owes (pc (th s' p)) c).
-Proof.
-  intros s lb s' I H c p Hc Hp.
-  pose proof (e_s1 _ _ _ I c p Hc Hp) as S1.
-  assert (Hc0 : c <> 0) by (unfold WorkersInv.helper in Hc; lia).
-  destruct (parent_le c p Hc Hp) as (HpN & Hpc).
-  step_inv_fine H; crunch; use_eqs; rewrite ?stops_app, ?stops_purge, ?stops_cons in *; cbn [is_stop owes b2n stops filter length] in *; try lia.
-  all: try pcs_facts I.
-  all: try match goal with w : fwd |- _ => destruct w end.
-  all: try fwd_facts I.
-  all: try congruence.
-  all: fwd_mem; cbn [fwd_purge fwd_cmd is_stop b2n] in *; rewrite ?stops_purge.
-  all: try lia.
-  all: match goal with E : Workers.children N parent ?t = _ , Hc : helper ?c, Hp : parent ?c = Some ?t |- _ =>
-         let X := fresh in assert (X : In c (children t)) by (apply in_children; auto); rewrite E in X;
-         try (now destruct X); try rewrite (proj2 (mem_tid_In c _) X) end.
-  all: simpl; lia.
-Qed.
-
-Lemma count_pos : forall (f : tid -> bool) l x, In x l -> f x = true -> 1 <= length (filter f l).
-Proof.
-  induction l as [|a l IH]; simpl; intros x Hin Hf; [tauto|].
-  destruct Hin as [->|Hin].
-  - rewrite Hf; simpl; lia.
-  - destruct (f a); simpl; [lia|eauto].
-Qed.
-
-Lemma ack_head_facts : forall s t f l, InvE s -> t <= N -> qu s t = CStopAck f :: l ->
-  helper f /\ parent f = Some t /\ acks f l = 0 /\ ae (th s f) = se (th s t) /\
-  se (th s f) = se (th s t) /\ se (th s t) = S (ae (th s 0)) /\
-  pendingb s t f = true /\ (1 <= wc (th s t))%Z.
-Proof.
-  intros s t f l I Ht Hq.
-  assert (Hin : In (CStopAck f) (qu s t)) by (rewrite Hq; left; auto).
-  destruct (e_snd _ _ _ I t _ Ht Hin) as (Hp & Hf).
-  pose proof (e_w2 _ _ _ I f t Hf Hp) as W2.
-  pose proof (e_w3 _ _ _ I f t Hf Hp) as W3.
-  rewrite Hq, acks_cons in W2, W3. simpl in W2, W3. rewrite Nat.eqb_refl in W2, W3.
-  specialize (W3 ltac:(lia)).
-  destruct (e_g2 _ _ _ I f Hf) as (? & ? & ?).
-  pose proof (inv_child_le s f t I Hf Hp).
-  assert (Hpd : pendingb s t f = true).
-  { unfold pendingb. rewrite Hq, acks_cons. simpl. rewrite Nat.eqb_refl. apply Nat.ltb_lt. lia. }
-  assert (Hwc : (1 <= wc (th s t))%Z).
-  { rewrite (e_w1 _ _ _ I t Ht). unfold WorkersInv.npending.
-    assert (Hic : In f (children t)) by (apply in_children; auto).
-    pose proof (count_pos (pendingb s t) (children t) f Hic Hpd). lia. }
-  split; [auto|]. split; [auto|]. split; [lia|]. split; [lia|]. split; [lia|]. split; [lia|]. split; auto.
-Qed.
-Ltac ack_facts I :=
-  match goal with
-  | Hq : qu ?s0 0 = CStopAck ?f :: ?l |- _ =>
-      destruct (ack_head_facts s0 0 f l I (Nat.le_0_l _) Hq) as (? & ? & ? & ? & ? & ? & ? & ?)
-  | Hq : qu ?s0 (S ?t) = CStopAck ?f :: ?l, Hl : Nat.leb (S ?t) N = true |- _ =>
-      destruct (ack_head_facts s0 (S t) f l I (proj1 (Nat.leb_le _ _) Hl) Hq) as (? & ? & ? & ? & ? & ? & ? & ?)
-  end.
-
-Lemma step_a1 : forall s lb s', InvE s -> lstep s lb = Some s' ->
-  forall c, helper c -> ae (th s' c) = se (th s' c) ->
-    self (th s' c) = false /\ wc (th s' c) = 0%Z /\
-    sendack (pc (th s' c)) = false /\ instop (pc (th s' c)) = false.
-Proof.
-  intros s lb s' I H c Hc.
-  pose proof (e_a1 _ _ _ I c Hc) as A1.
-  pose proof (e_a2 _ _ _ I c Hc) as A2.
-  assert (Hc0 : c <> 0) by (unfold WorkersInv.helper in Hc; lia).
-  pose proof (e_g2 _ _ _ I c Hc) as G2.
-  step_inv_fine H; crunch; use_eqs; cbn [sendack instop] in *; auto.
-  all: intros E; try (destruct (A1 ltac:(lia)) as (? & ? & ? & ?)); try discriminate;
-       repeat split; auto; try congruence; try lia.
-  all: try (ack_facts I; lia).
-  all: try (sendack_facts I; auto).
-Qed.
-
-Ltac boolfacts :=
-  repeat match goal with
-  | H : (_ =? _)%Z = true |- _ => apply Z.eqb_eq in H
-  | H : (_ =? _)%Z = false |- _ => apply Z.eqb_neq in H
-  | H : _ && _ = true |- _ => apply andb_prop in H; destruct H
-  | H : negb _ = true |- _ => apply negb_true_iff in H
-  | H : negb _ = false |- _ => apply negb_false_iff in H
-  end.
-
-Lemma step_a2 : forall s lb s', InvE s -> lstep s lb = Some s' ->
-  forall c, helper c -> sendack (pc (th s' c)) = true ->
-    self (th s' c) = false /\ wc (th s' c) = 0%Z /\ se (th s' c) = S (ae (th s' c)).
-Proof.
-  intros s lb s' I H c Hc.
-  pose proof (e_a1 _ _ _ I c Hc) as A1.
-  pose proof (e_a2 _ _ _ I c Hc) as A2.
-  pose proof (e_g2 _ _ _ I c Hc) as G2.
-  assert (Hc0 : c <> 0) by (unfold WorkersInv.helper in Hc; lia).
-  step_inv_fine H; crunch; use_eqs; cbn [sendack instop] in *; auto; try discriminate.
-  all: intros _; boolfacts; try ack_facts I.
-  all: match goal with |- context [th ?s0 ?x] =>
-         destruct (Nat.eq_dec (ae (th s0 x)) (se (th s0 x))) as [E|E];
-         [destruct (A1 E) as (? & ? & ? & ?); try congruence; try lia | ] end.
-  all: repeat split; auto; try lia.
-Qed.
-
-Lemma step_w2 : forall s lb s', InvE s -> lstep s lb = Some s' ->
-  forall c p, helper c -> parent c = Some p ->
-    se (th s' p) + acks c (qu s' p) <= S (ae (th s' c)).
-Proof.
-  intros s lb s' I H c p Hc Hp.
-  pose proof (e_w2 _ _ _ I c p Hc Hp) as W2.
-  pose proof (e_w3 _ _ _ I c p Hc Hp) as W3.
-  pose proof (e_g2 _ _ _ I c Hc) as G2.
-  pose proof (inv_child_le s c p I Hc Hp) as CL.
-  assert (Hc0 : c <> 0) by (unfold WorkersInv.helper in Hc; lia).
-  destruct (parent_le c p Hc Hp) as (HpN & Hpc).
-  step_inv_fine H; crunch; use_eqs; rewrite ?acks_app, ?acks_purge, ?acks_cons in *;
-    cbn [is_ack_from acks filter length] in *; try lia.
-  all: try pcs_facts I.
-  all: try match goal with w : fwd |- _ => destruct w end.
-  all: cbn [fwd_purge fwd_cmd is_ack_from] in *; rewrite ?acks_purge; eqb_cases; try lia.
-  all: try (stop_facts I; lia).
-  all: try (sendack_facts I; lia).
-  all: try (phase_facts' I; lia).
-Qed.
-
-
-Lemma step_w3 : forall s lb s', InvE s -> lstep s lb = Some s' ->
-  forall c p, helper c -> parent c = Some p -> 1 <= acks c (qu s' p) ->
-    ae (th s' c) = S (ae (th s' 0)).
-Proof.
-  intros s lb s' I H c p Hc Hp.
-  pose proof (e_w2 _ _ _ I c p Hc Hp) as W2.
-  pose proof (e_w3 _ _ _ I c p Hc Hp) as W3.
-  pose proof (e_g2 _ _ _ I c Hc) as G2.
-  pose proof (e_g1 _ _ _ I c (helper_le _ Hc)) as G1.
-  pose proof (inv_se0 s I) as G0.
-  pose proof (inv_child_le s c p I Hc Hp) as CL.
-  assert (Hc0 : c <> 0) by (unfold WorkersInv.helper in Hc; lia).
-  destruct (parent_le c p Hc Hp) as (HpN & Hpc).
-  step_inv_fine H; crunch; use_eqs; rewrite ?acks_app, ?acks_purge, ?acks_cons in *;
-    cbn [is_ack_from acks filter length] in *; try lia.
-  all: try pcs_facts I.
-  all: try match goal with w : fwd |- _ => destruct w end.
-  all: cbn [fwd_purge fwd_cmd is_ack_from] in *; rewrite ?acks_purge; eqb_cases; try lia.
-  all: try (stop_facts I; lia).
-  all: try (sendack_facts I; lia).
-  all: try (phase_facts' I; lia).
-  bar_facts. rewrite (barrier_noacks s I Hw c p Hc Hp). lia.
-Qed.
-
-Lemma step_fwd : forall s lb s', InvE s -> lstep s lb = Some s' ->
-  forall t w k rest, t <= N -> pc (th s' t) = PFwd w k rest ->
-    rest <> [] /\ NoDup rest /\ (forall x, In x rest -> In x (children t)).
-Proof.
-  intros s lb s' I H t w k rest Ht.
-  pose proof (e_fwd _ _ _ I t) as F.
-  step_inv_fine H; crunch; use_eqs; eauto; try discriminate.
-  all: intros E; injection E as <- <- <-.
-  all: try match goal with E : Workers.children N parent ?t = ?a :: ?l |- _ =>
-         rewrite <- E; split; [rewrite E; discriminate|]; split; [apply NoDup_children | auto] end.
-  all: match goal with E : remove_tid ?x ?r = ?a :: ?l, Hpc : pc (th ?s0 ?t) = PFwd ?w ?k ?r |- _ =>
-         destruct (F w k r Ht eq_refl) as (F1 & F2 & F3);
-         rewrite <- E; split; [rewrite E; discriminate|]; split; [now apply NoDup_remove_tid|];
-         intros y Hy; apply in_remove_tid in Hy; apply F3; tauto end.
-Qed.
-
-Lemma step_snd : forall s lb s', InvE s -> lstep s lb = Some s' ->
-  forall t m, t <= N -> In m (qu s' t) -> sender_ok N parent t m.
-Proof.
-  intros s lb s' I H t m Ht.
-  pose proof (e_snd _ _ _ I t m Ht) as Sn.
-  step_inv_fine H; crunch; use_eqs; auto.
-  all: try (intros Hin; apply Sn; right; exact Hin).
-  all: try pcs_facts I.
-  all: try match goal with w : fwd |- _ => destruct w end; cbn [fwd_purge fwd_cmd] in *.
-  all: intros Hin; apply in_app_or in Hin; destruct Hin as [Hin|[<-|[]]];
-       try (apply in_purge in Hin; destruct Hin as (Hin & _)); auto; simpl; auto.
-  all: split; auto; apply helper_leb; auto.
-Qed.
-
-Lemma step_pcs : forall s lb s', InvE s -> lstep s lb = Some s' ->
-  forall t, t <= N -> pcsend_ok t (pc (th s' t)).
-Proof.
-  intros s lb s' I H t Ht.
-  pose proof (e_pcs _ _ _ I t Ht) as P.
-  step_inv_fine H; crunch; use_eqs; cbn [pcsend_ok] in *; auto.
-Qed.
-
-Lemma step_j3 : forall s lb s', InvE s -> lstep s lb = Some s' ->
-  forall t w k rest, t <= N -> pc (th s' t) = PFwd w k rest -> fwd_startish w ->
-    S (se (th s' t)) = sid s'.
-Proof.
-  intros s lb s' I H t w k rest Ht.
-  pose proof (e_j3 _ _ _ I t) as J3.
-  pose proof (e_j2 _ _ _ I t) as J2.
-  pose proof (e_g1 _ _ _ I t Ht) as G1.
-  step_inv_fine H; crunch; use_eqs; eauto; try discriminate.
-  all: intros E Hw; try (injection E as <- <- <-).
-  all: try (destruct Hw as [Hw|(j' & Hw)]; discriminate).
-  all: try (phase_facts' I; lia).
-  all: try (stop_facts I; lia).
-  all: try (apply (J2 _ (helper_leb _ ltac:(eassumption)) (or_introl eq_refl)); unfold is_startish; eauto).
-  all: try (specialize (J3 _ _ _ Ht E Hw); phase_facts' I; lia).
-  all: try (eapply J3; eauto).
-Qed.
-
-Lemma startfree_sclean : forall l, startfree l -> sclean l.
-Proof.
-  induction l as [|m l IH]; simpl; auto. intros H.
-  assert (startfree l) by (intros x Hx; apply H; right; auto).
-  destruct m; auto.
-Qed.
-Lemma sclean_tail : forall m l, sclean (m :: l) -> sclean l.
-Proof. intros m l H. destruct m; simpl in H; auto. now apply startfree_sclean. Qed.
-Lemma sclean_app_nostop : forall l m, stops l = 0 -> m <> CStop -> sclean (l ++ [m]).
-Proof.
-  induction l as [|a l IH]; simpl; intros m H Hm.
-  - destruct m; simpl; auto. congruence.
-  - rewrite stops_cons in H. destruct a; simpl in *; try (apply IH; auto; lia). lia.
-Qed.
-Lemma sclean_app_stop : forall l, stops l = 0 -> sclean (l ++ [CStop]).
-Proof.
-  induction l as [|a l IH]; simpl; intros H.
-  - intros m [].
-  - rewrite stops_cons in H. destruct a; simpl in *; try (apply IH; auto; lia). lia.
-Qed.
-Lemma startfree_app : forall l m, startfree l -> ~ is_startish m -> startfree (l ++ [m]).
-Proof.
-  intros l m H Hm x Hx. apply in_app_or in Hx. destruct Hx as [Hx|[<-|[]]]; auto.
-Qed.
-Lemma sclean_app_other : forall l m, sclean l -> ~ is_startish m -> sclean (l ++ [m]).
-Proof.
-  induction l as [|a l IH]; simpl; intros m H Hm.
-  - destruct m; simpl; auto. intros x [].
-  - destruct a; simpl in *; auto. now apply startfree_app.
-Qed.
-
-Lemma step_sc : forall s lb s', InvE s -> lstep s lb = Some s' ->
-  forall c, helper c -> sclean (qu s' c).
-Proof.
-  intros s lb s' I H c Hc.
-  pose proof (e_sc _ _ _ I c Hc) as SC.
-  step_inv_fine H; crunch; use_eqs; auto.
-  all: try (eapply sclean_tail; eassumption).
-  all: try pcs_facts I.
-  all: try match goal with w : fwd |- _ => destruct w end; cbn [fwd_purge fwd_cmd] in *.
-  all: try (apply sclean_app_nostop; [apply stops_purge | discriminate]).
-  all: try (apply sclean_app_stop; apply stops_purge).
-  all: try (apply sclean_app_other; [assumption | intros [E|(j' & E)]; discriminate]).
-  all: try (fwd_facts I; apply sclean_app_nostop; [lia | discriminate]).
-Qed.
-
-Lemma step_j2 : forall s lb s', InvE s -> lstep s lb = Some s' ->
-  forall c m, helper c -> In m (qu s' c) -> is_startish m -> S (se (th s' c)) = sid s'.
-Proof.
-  intros s lb s' I H c m Hc.
-  pose proof (e_j2 _ _ _ I c m Hc) as J2.
-  assert (Hc0 : c <> 0) by (unfold WorkersInv.helper in Hc; lia).
-  pose proof (e_sc _ _ _ I c Hc) as SC.
-  pose proof (e_g1 _ _ _ I c (helper_le _ Hc)) as G1.
-  step_inv_fine H; crunch; use_eqs; auto.
-  all: try (intros Hin Hm; apply J2; auto; right; exact Hin).
-  all: try pcs_facts I.
-  all: try match goal with w : fwd |- _ => destruct w end; cbn [fwd_purge fwd_cmd] in *.
-  all: try fwd_facts I; try congruence.
-  all: intros Hin Hm.
-  all: try (exfalso; simpl in SC; exact (SC m Hin Hm)).
-  all: try (specialize (J2 Hin Hm); phase_facts' I; lia).
-  all: try (apply in_app_or in Hin; destruct Hin as [Hin|[<-|[]]];
-            try (apply in_purge in Hin; destruct Hin as (Hin & _)); auto;
-            try (destruct Hm as [Hm|(j' & Hm)]; discriminate); try lia).
-Qed.
-
-Ltac ltb_eq :=
-  match goal with |- (?a <? ?b) = (?c <? ?d) =>
-    destruct (Nat.ltb_spec a b), (Nat.ltb_spec c d); auto; try lia end.
-
-Lemma w1_frame : forall s s' p, InvE s -> p <= N -> wc (th s' p) = wc (th s p) ->
-  (forall y, helper y -> parent y = Some p -> y <> 0 -> p < y -> pendingb s' p y = pendingb s p y) ->
-  wc (th s' p) = Z.of_nat (npending s' p).
-Proof.
-  intros s s' p I Hp Hwc Hpd. rewrite Hwc, (e_w1 _ _ _ I p Hp). f_equal.
-  unfold WorkersInv.npending. apply count_ext. intros y Hy.
-  apply in_children in Hy. destruct Hy as (Hy & Hyp). symmetry. apply Hpd; auto.
-  - unfold WorkersInv.helper in Hy; lia.
-  - now destruct (parent_le y p Hy Hyp).
-Qed.
-
-Lemma w1_enter_round : forall s s' p, InvE s -> p <= N ->
-  se (th s' p) = S (se (th s p)) -> wc (th s' p) = nchildren N parent p ->
-  (forall y, ae (th s' y) = ae (th s y)) ->
-  wc (th s' p) = Z.of_nat (npending s' p).
-Proof.
-  intros s s' p I Hp Hse Hwc Hae. rewrite Hwc. unfold nchildren, WorkersInv.npending. f_equal.
-  symmetry. apply count_all. intros y Hy. apply in_children in Hy. destruct Hy as (Hy & Hyp).
-  unfold pendingb. apply Nat.ltb_lt. rewrite Hae, Hse.
-  destruct (e_g2 _ _ _ I y Hy) as (_ & ? & _). pose proof (inv_child_le s y p I Hy Hyp). lia.
-Qed.
-
-Lemma w1_pop_ack : forall s s' p f l, InvE s -> p <= N ->
-  qu s p = CStopAck f :: l -> qu s' p = l -> wc (th s' p) = (wc (th s p) - 1)%Z ->
-  se (th s' p) = se (th s p) -> (forall y, ae (th s' y) = ae (th s y)) ->
-  wc (th s' p) = Z.of_nat (npending s' p).
-Proof.
-  intros s s' p f l I Hp Hq Hq' Hwc Hse Hae.
-  destruct (ack_head_facts s p f l I Hp Hq) as (Hf & Hfp & Ha0 & Haf & _ & _ & Hpd & _).
-  rewrite Hwc, (e_w1 _ _ _ I p Hp). unfold WorkersInv.npending.
-  assert (Hin : In f (children p)) by (apply in_children; auto).
-  rewrite (count_flip (pendingb s p) (pendingb s' p) (children p) f (NoDup_children _ _ _) Hin Hpd).
-  - lia.
-  - unfold pendingb. rewrite Hae, Hse, Hq', Ha0. apply Nat.ltb_ge. lia.
-  - intros y Hy Hne. unfold pendingb. rewrite Hae, Hse, Hq', Hq, acks_cons. simpl.
-    destruct (Nat.eqb_spec f y); [congruence|]. reflexivity.
-Qed.
-
-Lemma step_w1 : forall s lb s', InvE s -> lstep s lb = Some s' ->
-  forall p, p <= N -> wc (th s' p) = Z.of_nat (npending s' p).
-Proof.
-  intros s lb s' I H p Hp.
-  step_inv_fine H.
-  all: try pcs_facts I.
-  all: try match goal with w : fwd |- _ => destruct w end.
-  all: try match goal with c : cmd |- _ => destruct c end.
-  all: try (apply (w1_frame s _ p I Hp);
-            [ crunch; reflexivity
-            | intros y Hy Hyp Hy0 Hlt; unfold pendingb; crunch; use_eqs;
-              rewrite ?acks_app, ?acks_purge, ?acks_cons; cbn [is_ack_from fwd_cmd fwd_purge];
-              rewrite ?acks_purge, ?acks_nil; eqb_cases;
-              try reflexivity; try lia; try ltb_eq ]; fail).
-  all: try exact (e_w1 _ _ _ I p Hp).
-  all: try (ack_facts I; phase_facts' I; lia).
-  all: match goal with |- context [set_th _ ?t _] => destruct (Nat.eq_dec p t) as [->|Hne] end.
-  all: try (eapply (w1_enter_round s); eauto; intros; crunch; auto; fail).
-  all: try (eapply (w1_pop_ack s); eauto; intros; crunch; auto; fail).
-  all: try (apply (w1_frame s _ p I Hp);
-            [ crunch; reflexivity
-            | intros y Hy Hyp Hy0 Hlt; unfold pendingb; crunch; use_eqs;
-              rewrite ?acks_app, ?acks_purge, ?acks_cons; cbn [is_ack_from fwd_cmd fwd_purge];
-              rewrite ?acks_purge, ?acks_nil; eqb_cases;
-              try reflexivity; try lia; try ltb_eq ]; fail).
-Qed.
-
-End P.
+(** C10 — the epoch invariant [InvE] is preserved by every transition (aggregates the parts). *)
+From Texel Require Export Workers.WorkersInvFacts Workers.WorkersTac Workers.WorkersInvA Workers.WorkersInvB Workers.WorkersInvC.
